@@ -1002,6 +1002,18 @@ func ensureServiceTxn(tx WriteTxn, idx uint64, node string, preserveIndexes bool
 		return err
 	}
 
+	// Health checks of the instance carry a copy of the service's name and tags (written when
+	// the check is registered, and again from the current service when a snapshot is
+	// restored): keep the copies current when the service changes them.
+	if existing != nil {
+		old := existing.(*structs.ServiceNode)
+		if old.ServiceName != entry.ServiceName || !reflect.DeepEqual(old.ServiceTags, entry.ServiceTags) {
+			if err := refreshServiceCheckCopiesTxn(tx, idx, entry); err != nil {
+				return err
+			}
+		}
+	}
+
 	// The instance may have been re-registered under another service name. Readers of the
 	// old name must see a new index: bump it if other instances remain, otherwise retire it
 	// the way deleteServiceTxn does for the last instance of a service.
@@ -1030,6 +1042,37 @@ func ensureServiceTxn(tx WriteTxn, idx uint64, node string, preserveIndexes bool
 					return err
 				}
 			}
+		}
+	}
+	return nil
+}
+
+// refreshServiceCheckCopiesTxn rewrites the service name and tags that the health checks of a
+// service instance carry after the instance changed them.
+func refreshServiceCheckCopiesTxn(tx WriteTxn, idx uint64, svc *structs.ServiceNode) error {
+	iter, err := tx.Get(tableChecks, indexNodeService, NodeServiceQuery{
+		EnterpriseMeta: svc.EnterpriseMeta,
+		Node:           svc.Node,
+		Service:        svc.ServiceID,
+		PeerName:       svc.PeerName,
+	})
+	if err != nil {
+		return fmt.Errorf("failed service check lookup: %s", err)
+	}
+	var checks []*structs.HealthCheck
+	for raw := iter.Next(); raw != nil; raw = iter.Next() {
+		checks = append(checks, raw.(*structs.HealthCheck))
+	}
+	for _, existing := range checks {
+		if existing.ServiceName == svc.ServiceName && reflect.DeepEqual(existing.ServiceTags, svc.ServiceTags) {
+			continue
+		}
+		hc := existing.Clone()
+		hc.ServiceName = svc.ServiceName
+		hc.ServiceTags = svc.ServiceTags
+		hc.ModifyIndex = idx
+		if err := catalogInsertCheck(tx, hc, idx); err != nil {
+			return err
 		}
 	}
 	return nil
